@@ -334,12 +334,16 @@ func (w *world) decide(rq *reqSpec) *decision {
 
 	// Entitlement: the security direction.
 	for _, c := range dc.Claims {
-		if c.dev == nil {
-			if c.ExtProf != "" {
-				if p := w.Profs[agd.ProfileID(c.ExtProf)]; p != nil && p.Auto && !p.Deleted {
-					dc.AutoProf[c.ExtProf] = c.ExtHuman
-				}
+		if c.ExtProf != "" && (c.dev == nil || c.dev.State == stDetached) {
+			// A human-readable identifier that no attached device of the
+			// profile owns (never used, or its device was detached) may create
+			// a NEW automatic device if the profile allows that; the detached
+			// device itself stays unentitled below.
+			if p := w.Profs[agd.ProfileID(c.ExtProf)]; p != nil && p.Auto && !p.Deleted {
+				dc.AutoProf[c.ExtProf] = c.ExtHuman
 			}
+		}
+		if c.dev == nil {
 			continue
 		}
 		d := c.dev
